@@ -143,6 +143,7 @@ PROPS = {
         not_yet_proved=[],
     ),
     "C11": dict(
+        tags=["C11", "C01"],   # "resolving a token yields the text it was built from": the finished tree is compared with the events' tree in the same runs
         runs=runs([("tokens", "release"), ("tokens", "debug")],
                   [("tokens", "release"), ("tokens", "debug"), ("tokens", "lasso"), ("tokens", "lasso-debug")]),
         rule="cases = two trees built through one cache (one interner) from 12 token forms: 4 static kinds (one with empty, one with multi-byte static text; "
